@@ -85,10 +85,13 @@ class Judge(object):
         got: observation of the driver ; pred: what the unchanged algorithm gives: 'ZDE' | (re, im)"""
         st = self.stats
         desc = {"part": part, "build": build, "via": via, "op": op, "path": path, "conv_lossy": conv_lossy}
-        detail = {"call": "%s_%s" % ("a" if via == "arg" else "p", op), "a": [lc.hx(x) for x in a], "b": [lc.hx(x) for x in b],
-                  "a_repr": repr(complex(*a)), "b_repr": repr(complex(*b)), "want": want if isinstance(want, str) else [None if x is None else lc.hx(x) for x in want],
-                  "got": got if isinstance(got, str) else [got[0]] + [lc.hx(x) for x in got[1:]],
-                  "unchanged_algorithm_gives": pred if isinstance(pred, str) else [lc.hx(x) for x in pred], "expected_from": src}
+
+        def mk_detail():
+            return {"call": "%s_%s" % ("a" if via == "arg" else "p", op), "a": [lc.hx(x) for x in a], "b": [lc.hx(x) for x in b],
+                    "a_repr": repr(complex(*a)), "b_repr": repr(complex(*b)),
+                    "want": want if isinstance(want, str) else [None if x is None else lc.hx(x) for x in want],
+                    "got": got if isinstance(got, str) else [got[0]] + [lc.hx(x) for x in got[1:]],
+                    "unchanged_algorithm_gives": pred if isinstance(pred, str) else [lc.hx(x) for x in pred], "expected_from": src}
         st["judged"] += 1
         if isinstance(got, str):
             if got.startswith("E:"):
@@ -97,15 +100,15 @@ class Judge(object):
                 oc = "as-model" if (pred == "ZDE" and got == "E:ZeroDivisionError") else "exception"
             else:
                 oc = "crash"
-            self.rep.disagree(desc, oc, detail)
+            self.rep.disagree(desc, oc, mk_detail())
             return False
         if got[0] == "o":
-            self.rep.disagree(desc, "wrong-type", detail)
+            self.rep.disagree(desc, "wrong-type", mk_detail())
             return False
         ok = True
         if op == "abs":
             if got[0] != "f":
-                self.rep.disagree(desc, "wrong-type", detail)
+                self.rep.disagree(desc, "wrong-type", mk_detail())
                 return False
             g = (got[1], 0.0)
             skip_im_sign = False
@@ -113,7 +116,7 @@ class Judge(object):
             # a Python float where Python gives a complex.  The unchanged tree does that for `**` under cpow=False
             # exactly when the imaginary part of its result is zero ("soft complex"); anything else is a wrong type.
             soft = op == "pow" and not isinstance(pred, str) and pred[1] == 0 and lc.same(pred[0], got[1])
-            self.rep.disagree(desc, "float-result" if soft else "wrong-type", detail)
+            self.rep.disagree(desc, "float-result" if soft else "wrong-type", mk_detail())
             if not soft:
                 return False
             ok = False
@@ -124,7 +127,7 @@ class Judge(object):
             skip_im_sign = False
         if want == "ZDE":
             oc = "as-model" if (pred != "ZDE" and lc.same(pred[0], g[0]) and (op == "abs" or lc.same(pred[1], g[1]))) else "wrong-value"
-            self.rep.disagree(desc, oc, detail)
+            self.rep.disagree(desc, oc, mk_detail())
             return False
         scale = max([abs(x) for x in want if x is not None and x == x and abs(x) != INF] + [0.0])
         bad = False
@@ -137,7 +140,7 @@ class Judge(object):
                 bad = True
         if bad:
             as_model = pred != "ZDE" and lc.same(pred[0], g[0]) and (op == "abs" or skip_im_sign or lc.same(pred[1], g[1]))
-            self.rep.disagree(desc, "as-model" if as_model else "wrong-value", detail)
+            self.rep.disagree(desc, "as-model" if as_model else "wrong-value", mk_detail())
             return False
         return ok
 
@@ -239,7 +242,8 @@ def run(tier, seed):
         c["mv"] = m
         if not isinstance(m, str) and None in m:
             mstat["model_undecided"] += 1
-        if c["m"] != c["d"] and not c["d"].startswith("none"):
+        if not c["d"].startswith("none") and (isinstance(m, str) != isinstance(d, str) or (
+                not isinstance(m, str) and any(m[i] is not None and d[i] is not None and not lc.same(m[i], d[i]) for i in (0, 1)))):
             mstat["model_deviates"][c["path"]] = mstat["model_deviates"].get(c["path"], 0) + 1
     if rep.drift:
         return rep.finish()
